@@ -14,6 +14,7 @@ import asyncio
 import json
 import os
 import random
+import re
 import shutil
 import tempfile
 
@@ -22,7 +23,7 @@ from .c04 import fresh_schema_name
 from .coqterm import coq_list, coq_string, coq_bool, coq_option
 from .gen import N, L, NN
 
-C11_FILES = ["Properties/C11.v", "Proofs/IntrospectProofs.v"]
+C11_FILES = ["Properties/C11.v", "Proofs/IntrospectProofs.v", "Proofs/IntrospectExt.v"]
 
 TYPE_REF = "kind name ofType { kind name ofType { kind name ofType { kind name ofType { kind name ofType { kind name } } } } }"
 INTROSPECTION = """
@@ -48,6 +49,9 @@ query I {
 TYPE_SELECTION = INTROSPECTION[INTROSPECTION.index("types {") + len("types {"):INTROSPECTION.index("    directives {")].rsplit("}", 1)[0]
 
 
+BACKSLASH_REASON = 'deprecated(reason: "use \\\\newField, \\\\told \\\\bad \\\\found \\\\rest a\\\\/b \\\\u0041 \\"q\\"")'
+
+
 def decorate(rng, m):
     """@deprecated / @nonIntrospectable on members, `extend schema` without operations, an implementer declared
     before its interface"""
@@ -61,6 +65,8 @@ def decorate(rng, m):
                     f["dirs"] = ['deprecated(reason: "use %s2")' % f["name"]]
                 elif r < 0.24:
                     f["dirs"] = [rng.choice(['deprecated(reason: "")', 'deprecated(reason: null)'])]
+                    if rng.random() < 0.4:      # an escaped backslash in front of a letter that is also an escape
+                        f["dirs"] = [BACKSLASH_REASON]
                 elif r < 0.3 and len(t["fields"]) > 1:
                     f["dirs"] = ["nonIntrospectable"]
         if t["kind"] == "ENUM":
@@ -84,6 +90,8 @@ def decorate(rng, m):
             {"name": "s2", "type": N("String"), "default": ("str", "line\nbreak\ttab")},
             {"name": "s3", "type": N("String"), "default": ("str", "\u00e9t\u00e9 \u00fc")},
             {"name": "s4", "type": N("String"), "default": ("str", "")},
+            {"name": "s5", "type": N("String"), "default": ("str", "C:\\temp\\new\\file\\bin\\res a\\/b \\u0041 \\\\x")},
+            {"name": "s6", "type": N("String"), "default": ("str", "\\bword\\b")},
             {"name": "i1", "type": N("Int"), "default": ("int", -5)},
             {"name": "f1", "type": N("Float"), "default": ("float", 1e+20)},
             {"name": "f2", "type": N("Float"), "default": ("float", 1.5e-07)},
@@ -254,7 +262,8 @@ def python_checks(m, sc, by_name_results):
     def reason_of(d):
         if "reason: null" in d:
             return None
-        return d.split('"')[1] if '"' in d else "No longer supported"
+        m_ = re.search(r'"((?:[^"\\]|\\.)*)"', d)
+        return json.loads('"%s"' % m_.group(1)) if m_ else "No longer supported"
     for holder in list(m["types"]) + [e for e in m["exts"] if "target" in e]:
         tn = holder.get("target") or holder["name"]
         for f in holder.get("fields", []) or []:
@@ -414,8 +423,8 @@ def main(tier_, replay=None):
         "trusted_base": common.TRUSTED_BASE + [
             "Print Assumptions: %d theorems closed; axioms: %s" % (assum["closed"], assum["axioms"] or "none")],
         "theorems": [n for n in names if n.startswith("C11_")],
-        "evaluations": total, "distinct_nontrivial": len(items),
-        "rule": "schema models x 4 ways of supplying the SDL; non-trivial = engine built and answered the introspection query, "
+        "evaluations": total, "distinct_nontrivial": len({(schemagen.model_sdl(m), w) for m, w, _sc in items}),
+        "rule": "schema models x 4 ways of supplying the SDL; non-trivial = distinct (SDL text, way) for which the engine built and answered the introspection query, "
                 "result compared inside Coq with Model/Introspect.v",
         "traces_validated_against_impl": len(items), "impl_model_mismatches": len(mism), "property_violations": len(viol),
         "samples": [{"way": w, "types": len(sc["types"])} for _m, w, sc in items[:4]],
